@@ -188,7 +188,7 @@ PLANS["C16"]["must_exercise"].append("trace.pscalar.events")
 IO_BASE = """CONSTANTS
   NV = 2
   MaxLen = 5
-  MaxItems = 1
+  MaxItems = 2
   ArgVals = 1
   AssignMax = 4
 """
@@ -290,6 +290,7 @@ PLANS.update({
                    + [io_recv_cfg("US2", 3, 12, 0, "code", True, cap=0)]
                    + [io_recv_cfg("UE6", 3, 12, 0, "code", True, cap=4, retain=1), io_recv_cfg("UE6", 3, 24, 0, "any", False, live=True, retain=2)]   # RecvGuard::retain
                    + [io_recv_cfg(m, 2, 16, 0, "code", True) for m in ("UE11", "UE10", "UE2")]       # variants with odd payloads / interior padding
+                   + [io_recv_cfg("US3", 2, 8, 0, "code", True)]                                     # a string message: reads that end inside a multi-byte character
                    + [io_send_cfg(m, 3, 12, 0, 0, True) for m in ["UE6", "US2", "X_vu8_u8", "UE11"]],
                    [io_recv_cfg("UE6", 3, 24, 0, "any", False, live=True), io_send_cfg("UE6", 3, 12, 0, 0, False, live=True)]
                    + [io_recv_cfg(m, n, c, 0, "code", True) for m, n, c in [("UE6", 4, 24), ("US2", 3, 16), ("US1", 2, 48), ("V_u8_u32", 3, 16), ("X_vu8_u8", 3, 8), ("UE1", 3, 16), ("SS1", 2, 48)]]
@@ -328,7 +329,8 @@ PLANS.update({
                    ["iorecv.arbitrary.*"],
                    [io_recv_cfg(m, 2, 4, 0, "code", True, arbitrary=True, rawlen=r) for m, r in [("UE6", 4), ("X_vu8_u8", 4), ("US2", 3), ("V_u8_u16", 3), ("UE11", 3), ("UE2", 3)]]
                    + [io_recv_cfg("UE6", 2, 4, 0, "code", True, arbitrary=True, rawlen=3, retain=1)]
-                   + [io_recv_cfg("US3", 2, 4, 0, "code", True, arbitrary=True, rawlen=2)],           # a string message: contents cut inside a character
+                   + [io_recv_cfg("US3", 2, 4, 0, "code", True, arbitrary=True, rawlen=2)]            # a string message: contents cut inside a character
+                   + [io_recv_cfg("X_vi32_u16", 2, 4, 0, "code", True, arbitrary=True, rawlen=2)],    # items more aligned than the offset type: links aligned for the offset only
                    [io_recv_cfg(m, 2, 6, 0, "code", True, arbitrary=True, rawlen=r) for m, r in [("UE6", 5), ("X_vu8_u8", 5), ("US2", 4), ("UE1", 4), ("X_s8_u16", 4)]]),
 })
 
